@@ -1,3 +1,10 @@
 package main
 
-func emitFacts(repo, outDir string) int { return 0 }
+// emitFacts: structural facts and kernels that need more than the shared target kinds. Each emitter is
+// independent and returns the number of targets that left the supported subset.
+func emitFacts(repo, outDir string) int {
+	n := 0
+	n += emitGovFeeExtra(repo, outDir) // targets_govfee.go (C13 mint, C18 fees)
+	n += emitFactsBan(repo, outDir)    // facts_ban.go (C13 transfer ban)
+	return n
+}
